@@ -102,6 +102,17 @@ static void mdisp(int t, int s, Op const& op) {
 	}
 }
 
+// dense <- dense matrices (opposite orientations go through the blocked transposing kernels)
+template <class Op>
+static void ddisp(int t, int s, Op const& op) {
+	if (mk[t] == 'd' && mk[s] == 'd') op(DMr[t], DMr[s]);
+	else if (mk[t] == 'd' && mk[s] == 'e') op(DMr[t], DMc[s]);
+	else if (mk[t] == 'e' && mk[s] == 'd') op(DMc[t], DMr[s]);
+	else if (mk[t] == 'e' && mk[s] == 'e') op(DMc[t], DMc[s]);
+	else std::cout << "UNSUPPORTED ";
+}
+struct DD2 { int t, s; DD2(int t, int s) : t(t), s(s) {} template <class Op> void operator()(Op const& op) const { ddisp(t, s, op); } };
+
 struct KAssign {
 	template <class A, class B> void operator()(A& a, B const& b) const { kernels::assign(a, b); }
 };
@@ -347,6 +358,13 @@ int main(int argc, char** argv) {
 			default: scal(DMc[t], opcode(o), c); break;
 			}
 			printm(t);
+		} else if (cmd == "MFILL") {
+			int id; long seed; is >> id >> seed;
+			if (mk[id] == 'd') { for (std::size_t i = 0; i != DMr[id].size1(); ++i) for (std::size_t j = 0; j != DMr[id].size2(); ++j) DMr[id](i, j) = T((7 * i + 13 * j + seed) % 11) - 5; }
+			else if (mk[id] == 'e') { for (std::size_t i = 0; i != DMc[id].size1(); ++i) for (std::size_t j = 0; j != DMc[id].size2(); ++j) DMc[id](i, j) = T((7 * i + 13 * j + seed) % 11) - 5; }
+			printm(id);
+		} else if (cmd == "DKA") { int t, s; is >> t >> s; ddisp(t, s, KAssign()); printm(t);
+		} else if (cmd == "DKF") { std::string fn; long c; int t, s; is >> fn >> c >> t >> s; kfun_named(fn, c, DD2(t, s)); printm(t);
 		} else if (cmd == "XV") {
 			std::string form, o; int t, shape, a, b, c; long k; is >> form >> o >> t >> shape >> a >> b >> c >> k;
 			if (vk[t] == 's') xvec(SV[t], form == "noalias", opcode(o), shape, a, b, c, k);
